@@ -46,3 +46,10 @@ CASES += [
     dict(id='c07-value-list-closed-after-env', prop='C07', file='src/library/prog_args/handler.cpp', expect='R4',
          old="   iterateArguments( alp);\n\n} // Handler::checkReadEnvVarArgs", new="   iterateArguments( alp);\n   endValueList();\n\n} // Handler::checkReadEnvVarArgs"),
 ]
+
+CASES += [
+    dict(id='c07-orig-last-line-dropped', prop='C07', file='src/library/prog_args/handler.cpp', expect='R5',
+         old="   while (std::getline( progArgs, line))", new="   while (!std::getline( progArgs, line).eof())"),
+    dict(id='c07-last-line-dropped-good', prop='C07', file='src/library/prog_args/handler.cpp', expect='R5',
+         old="   while (std::getline( progArgs, line))", new="   while (std::getline( progArgs, line).good())"),
+]
